@@ -2,9 +2,10 @@
    Only ExtrOcamlBasic is used: bool, option, unit, list, prod, sumbool map to
    OCaml's; positive/N/Z/nat stay the extracted inductive types. *)
 From Coq Require Extraction ExtrOcamlBasic.
-From PV Require Import Base.Common Model.LabelScope.
+From PV Require Import Base.Common Model.LabelScope Model.Syntax.
 
 Extraction Language OCaml.
 Separate Extraction
   N.add N.mul N.div_eucl N.eqb Z.add Z.mul Z.of_N Z.to_N Z.eqb
-  LabelScope.scan_program LabelScope.spec_program.
+  LabelScope.scan_program LabelScope.spec_program
+  Syntax.body_codes Syntax.spec_body Syntax.lint_body Syntax.lint_spec_body.
